@@ -747,7 +747,8 @@ class RestAPI(object):
                     return aws_error("StateMachineDoesNotExist"), 400
 
                 status_filter = params.get("statusFilter")
-                if status_filter and status_filter not in (
+                # (anything that is not a status is ignored, an empty value included)
+                if status_filter not in (
                     "RUNNING",
                     "SUCCEEDED",
                     "FAILED",
